@@ -995,7 +995,8 @@ def E_bond_cutoff(repo, clause):
     offs = [n for n in fn.own_nodes() if isinstance(n, ast.Assign) and isinstance(n.targets[0], ast.Name) and "offset" in n.targets[0].id]
     with_cell = [n for n in offs if isinstance(n.value, ast.Call) and call_name(n.value) == "uc_neighbor_offsets"]
     no_cell = [n for n in offs if n not in with_cell]
-    ok = len(with_cell) == 1 and len(no_cell) == 1 and any(pol and "cell is not None" in ast.unparse(t) for t, pol, k in norm_guards(fn, with_cell[0])) \
+    ok = len(with_cell) == 1 and len(no_cell) == 1 and any((pol and "cell is not None" in ast.unparse(t)) or ((not pol) and ast.unparse(t).endswith("cell is None"))
+                                                           for t, pol, k in norm_guards(fn, with_cell[0])) \
         and re.sub(r"[\s.]", "", ast.unparse(no_cell[0].value)).replace("00", "0") in ("nparray([[0,0,0]])",)
     pos_bad = False
     why_img = ""
@@ -1165,7 +1166,11 @@ def E_retype(repo, clause):
     ty = stores["atom_types"].value
     ok3 = isinstance(ty, ast.ListComp) and isinstance(ty.elt, ast.Call) and ast.unparse(ty.elt.func) == "%s.index" % U and \
         isinstance(ty.generators[0].iter, ast.Name) and ty.generators[0].iter.id == t and ast.unparse(ty.elt.args[0]) == ty.generators[0].target.id
-    obs.append(Ob("E9", clause, fn, stores["atom_types"], ok3, "per-atom type id = position of the atom's UFF type in the unique list", slot="type-ids"))
+    # recognised idiom `<list>.index(t) for t in types` over a DIFFERENT list than the one the tables are derived from
+    other_list = isinstance(ty, ast.ListComp) and isinstance(ty.elt, ast.Call) and isinstance(ty.elt.func, ast.Attribute) and ty.elt.func.attr == "index" and not ok3
+    obs.append(Ob("E9", clause, fn, stores["atom_types"], ok3, "per-atom type id = position of the atom's UFF type in the unique list" + (
+        "" if not other_list else " -- NO: the position is looked up in `%s`, not in the sorted unique list `%s` that labels, elements and masses are derived from: ids and tables disagree" % (ast.unparse(ty.elt.func.value)[:40], U)),
+        slot="type-ids", positive=other_list, undecided=not ok3 and not other_list))
     # unique list built from the per-atom types; prefix expression same in sort key and element table
     ud = [n for n in fn.own_nodes() if isinstance(n, ast.Assign) and isinstance(n.targets[0], ast.Name) and n.targets[0].id == U]
     ok4 = len(ud) == 1 and re.sub(r"\s", "", ast.unparse(ud[0].value)) in ("list(set(%s))" % t, "sorted(set(%s))" % t, "sorted(list(set(%s)))" % t)
@@ -1266,7 +1271,16 @@ def E_enumeration_shape(repo, clause):
             slots = [ast.unparse(e) for e in lc[0].elt.elts] == [g0.target.id, a, b, g1.target.id]
             ok = rem_ok and prod_ok and slots
             detail = "per edge (a,b): neighbours of a minus b times neighbours of b minus a, tuple (a1, a, b, b1): removals=%s product=%s slots=%s" % (rem_ok, prod_ok, slots)
-    obs.append(Ob("E10", clause, cd, lp[0] if lp else cd.node, ok, detail, slot="dihedrals"))
+    # recognised shape with a neighbour list that still contains the bond partner: chains a-b-a-x / x-a-b-a are enumerated as torsions
+    pos10 = False
+    if len(lp) == 1 and isinstance(lp[0].target, ast.Tuple) and not ok:
+        try:
+            if an and bn and len(lc) == 1 and prod_ok and slots and not rem_ok:
+                pos10 = True
+                detail += " -- the neighbour list of one end still contains the other end of the bond: degenerate chains through the same atom twice are returned as dihedrals"
+        except NameError:
+            pass
+    obs.append(Ob("E10", clause, cd, lp[0] if lp else cd.node, ok, detail, slot="dihedrals", positive=pos10))
     return obs
 
 
